@@ -370,7 +370,7 @@ func c20scenario(c *Ctx, z *c20zones, tickDone chan any, idx int) (*c20scn, bool
 		name := freeName()
 		return func() (string, string, string) { return addJob(name, zi, spec, text, valid) }
 	}
-	// AddJob of a job whose spec denotes minute x (hour and minute fixed) in its zone
+	// AddJob of a job whose spec denotes minute x in its zone (hour and minute fixed, or every minute)
 	midAddFor := func(x time.Time) func() (string, string, string) {
 		zi := zis[rng.Intn(2)]
 		need(zi, x)
@@ -379,8 +379,10 @@ func c20scenario(c *Ctx, z *c20zones, tickDone chan any, idx int) (*c20scn, bool
 		for k := range spec.F {
 			spec.F[k] = cField{Star: true}
 		}
-		spec.F[0] = cField{Items: []cItem{{T: itNum, A: t.Minute()}}}
-		spec.F[1] = cField{Items: []cItem{{T: itNum, A: t.Hour()}}}
+		if rng.Chance(2, 3) {
+			spec.F[0] = cField{Items: []cItem{{T: itNum, A: t.Minute()}}}
+			spec.F[1] = cField{Items: []cItem{{T: itNum, A: t.Hour()}}}
+		} // else "* * * * *": spooled for x inside the tick and again for the minute the next run happens in
 		name := freeName()
 		return func() (string, string, string) { return addJob(name, zi, spec, spec.String(), true) }
 	}
@@ -469,6 +471,10 @@ func c20scenario(c *Ctx, z *c20zones, tickDone chan any, idx int) (*c20scn, bool
 				r.Violation("C20/tick-fires-wrong-set", fmt.Sprintf("tick at %s: jobs that are present, enabled and match this minute: [%s]; jobs run: [%s]",
 					now.UTC().Format(time.RFC3339), want, sortedInts(uniq)), ctx)
 			}
+		}
+		if nx := vc.Next(); !nx.Equal(now.Add(time.Minute)) {
+			r.Violation("C20/next-not-advanced", fmt.Sprintf("after the timer function ran at %s c.next is %s, not the following minute: the spool is being filled for a minute the timer will not run in",
+				now.UTC().Format(time.RFC3339), nx.UTC().Format(time.RFC3339)), ctx)
 		}
 		next = now.Add(time.Minute)
 		needAll(next)
